@@ -186,9 +186,30 @@ class OperatorMapper:
         if operation is operator.le or operator_name == "le":
             return left <= right
         if operation is operator.ne or operator_name == "ne":
+            # in Python None != value is True, in SQL NULL != value is NULL (not selected)
+            if hasattr(left, "is_distinct_from"):
+                return left.is_distinct_from(right)
+            if hasattr(right, "is_distinct_from"):
+                return right.is_distinct_from(left)
             return left != right
 
         raise UnsupportedOperatorError(f"Unknown operator: {operation}")
+
+    @staticmethod
+    def map_membership(column: Any, values: Any) -> Any:
+        """
+        Map the membership of a column's value in a collection of python values to a SQLAlchemy expression.
+
+        :param column: The column
+        :param values: The python values
+        :return: SQLAlchemy expression
+        """
+        values = list(values)
+        # NULL is not IN any list, in Python None is in [None]
+        expression = column.in_([value for value in values if value is not None])
+        if any(value is None for value in values):
+            expression = or_(expression, column.is_(None))
+        return expression
 
     def map_contains_operator(self, operation: Any, left: Any, right: Any) -> Any:
         """
@@ -202,17 +223,15 @@ class OperatorMapper:
         operator_name = operation.__name__
         is_negated = operator_name == "not_contains"
 
-        if isinstance(left, (list, tuple, set)):
-            expression = right.in_(left)
-        elif isinstance(right, (list, tuple, set)):
-            expression = left.in_(right)
+        if isinstance(left, (list, tuple, set, frozenset, range)):
+            expression = self.map_membership(right, left)
+        elif isinstance(right, (list, tuple, set, frozenset, range)):
+            expression = self.map_membership(left, right)
         elif isinstance(left, str) and not isinstance(right, str):
             expression = func.instr(literal(left), right) > 0
         elif not isinstance(left, str) and isinstance(right, str):
-            if hasattr(left, "contains"):
-                expression = left.contains(right)
-            else:
-                expression = left.like("%" + right + "%")
+            # LIKE ignores the case of ASCII letters in some databases and treats % and _ as wild cards
+            expression = func.instr(left, right) > 0
         elif isinstance(left, str) and isinstance(right, str):
             expression = literal(right in left)
         else:
@@ -650,7 +669,13 @@ class EQLTranslator:
 
         if isinstance(operand, Literal):
             extractor = DomainValueExtractor(self.session)
-            return extractor.extract_from_literal(operand)
+            value = extractor.extract_from_literal(operand)
+            if get_dao_class(type(value)) is not None:
+                # a mapped object cannot be bound as a statement parameter, its row would have to be looked up
+                raise UnsupportedQueryTypeError(
+                    f"Comparisons with an instance of the mapped class {type(value).__name__} are not supported."
+                )
+            return value
 
         if isinstance(operand, Variable):
             extractor = DomainValueExtractor(self.session)
@@ -688,12 +713,14 @@ class EQLTranslator:
             if not isinstance(values, list):
                 values = [values]
 
-            if len(values) == 1 and isinstance(values[0], (list, tuple)):
-                values = values[0]
+            if len(values) == 1 and isinstance(
+                values[0], (list, tuple, set, frozenset, range)
+            ):
+                values = list(values[0])
 
             if len(values) != 1 or (values and not isinstance(values[0], str)):
                 column = self.translate_attribute(query.right)
-                expression = column.in_(values)
+                expression = OperatorMapper.map_membership(column, values)
                 return sa_not(expression) if is_negated else expression
 
         mapper = OperatorMapper()
